@@ -152,6 +152,7 @@ type profile struct {
 	// SPEC.md §4 (zero in the profiles that predate it, which draw exactly as before)
 	queryPct    int  // share of `query` ops among the ops, in percent
 	genesisTail bool // end the history with [prep] export validate jsonrt reimport
+	std20Pct    int  // share of histories in which every address is 20 bytes long (what standard clients can produce)
 }
 
 var dtNormal = []wInt{{1, 2}, {nsPerSec, 3}, {5 * nsPerSec, 4}, {0, 2}}
@@ -225,11 +226,11 @@ func init() {
 	mixed := profiles["mixed"]
 
 	queries := *mixed
-	queries.name, queries.queryPct = "queries", 20 // with the twins that follow, about 30% of the ops
+	queries.name, queries.queryPct, queries.std20Pct = "queries", 20, 40 // with the twins that follow, about 30% of the ops
 	profiles["queries"] = &queries
 
 	genesis := *mixed
-	genesis.name, genesis.genesisTail = "genesis", true
+	genesis.name, genesis.genesisTail, genesis.std20Pct = "genesis", true, 60
 	genesis.weights = map[string]int{}
 	for k, w := range mixed.weights {
 		genesis.weights[k] = w
@@ -379,6 +380,39 @@ type gen struct {
 	seenSet  map[string]bool
 
 	pending []string // op lines to emit before drawing again (the twin of a query)
+	std20   bool     // this history only uses 20-byte addresses
+}
+
+// std20Line replaces, in an op line, every address that is neither empty nor 20
+// bytes long by a 20-byte one derived from it (cut, or padded with 0x66).
+func std20Line(line string) string {
+	toks := strings.Split(line, " ")
+	for i, tok := range toks {
+		kv := strings.SplitN(tok, "=", 2)
+		if len(kv) != 2 {
+			continue
+		}
+		switch kv[0] {
+		case "prov", "provs", "owner", "addr", "acct", "cons", "from", "to", "author":
+		default:
+			continue
+		}
+		parts := strings.Split(kv[1], ",")
+		for j, a := range parts {
+			if a == "-" || len(a) == 40 || len(a)%2 != 0 {
+				continue
+			}
+			if len(a) > 40 {
+				a = a[:38] + "66"
+			}
+			for len(a) < 40 {
+				a += "66"
+			}
+			parts[j] = a
+		}
+		toks[i] = kv[0] + "=" + strings.Join(parts, ",")
+	}
+	return strings.Join(toks, " ")
 }
 
 func (g *gen) rememberReq(id, prov []byte) {
@@ -1779,14 +1813,21 @@ func generateHistory(seed int64, index int, prof *profile, nOps int, path string
 		}
 	}
 
+	g.std20 = prof.std20Pct > 0 && g.pct(prof.std20Pct)
+	fix := func(line string) string {
+		if g.std20 {
+			return std20Line(line)
+		}
+		return line
+	}
 	for n := 0; n < nOps && !g.sim.Stopped; n++ {
-		if err := step(g.nextOp()); err != nil {
+		if err := step(fix(g.nextOp())); err != nil {
 			return nil, err
 		}
 	}
 	if prof.genesisTail && !g.sim.Stopped {
 		for _, line := range g.genesisTail() {
-			if err := step(line); err != nil {
+			if err := step(fix(line)); err != nil {
 				return nil, err
 			}
 		}
